@@ -93,10 +93,11 @@ def with_declared_types(text):
 
 
 def cases(tier, seed):
+    seed_set = set(SEEDS) | set(gen.SEEDS)
     progs = list(SEEDS)
     base = [t for t in base_programs(tier) if "p" not in re.findall(r"[a-z]+", t)]
     step = 3 if tier == "quick" else 1
-    progs += base[::step]
+    progs += [t for i, t in enumerate(base) if i % step == 0 or t in seed_set]
     out = []
     sliced = set(progs)
     for text in base:
@@ -119,7 +120,7 @@ def cases(tier, seed):
                     and len([k for k, v in cfg["settings"].items() if v]) == 1:
                 out.append({"input": {"text": text, "config": cfg, "goals": goals}, "N": 4})
     for text in progs:
-        goals = gen.goals_for(text, 2, 3 if tier == "quick" else 5)
+        goals = gen.goals_for(text, 2, 3 if (tier == "quick" and text not in seed_set) else 5)
         for ci, cfg in enumerate(configs(tier)):
             if cfg["settings"].get("transform_categoricals") and "{" not in text:
                 continue
